@@ -1533,7 +1533,9 @@ Proof.
     [|done|done| |apply cache_ok_empty|lia].
   2:{ intros k Hk _. apply elem_of_sorted_levels. by apply elem_of_dom. }
   destruct rr as [[x' c]|e]; cycle 1.
-  { exfalso. destruct Hr as [_ [l Hl]]. change (last_len s0) with (last_len s) in Hl. congruence. }
+  { exfalso. rewrite (bind_err _ _ _ _ _ Erec) in Hrun. injection Hrun as <- <-.
+    destruct (benign_off s0 e Hoff Hr) as [-> _].
+    by destruct Hcase as [[[=] _]|[[=] _]]. }
   rewrite (bind_ok _ _ _ _ _ Erec) in Hrun. cbn [fst ret] in Hrun.
   injection Hrun as <- <-.
   destruct Hcase as [[[=] _]|[[= <-] ->]].
